@@ -477,6 +477,14 @@ func (b *broker) syncSubscribe(subscriber *wamp.Session, msg *wamp.Subscribe, ma
 	b.syncPubSubMeta(wamp.MetaEventSubOnSubscribe, subscriber.ID, sub.id)
 }
 
+// hasEventHistory returns true if the subscription was created at startup to
+// keep event history. Such a subscription, and the events stored for it, must
+// remain when it has no subscribers.
+func (b *broker) hasEventHistory(sub *subscription) bool {
+	_, ok := b.eventHistoryStore[sub]
+	return ok
+}
+
 // syncDeleteSubscription removes the the ID->subscription mapping and removes
 // the topic->subscription mapping.
 func (b *broker) syncDelSubscription(sub *subscription) {
@@ -519,7 +527,7 @@ func (b *broker) syncUnsubscribe(subscriber *wamp.Session, msg *wamp.Unsubscribe
 	// If no more subscribers on this subscription, delete subscription and
 	// send on_delete meta event.
 	var delLastSub bool
-	if len(sub.subscribers) == 0 {
+	if len(sub.subscribers) == 0 && !b.hasEventHistory(sub) {
 		b.syncDelSubscription(sub)
 		delLastSub = true
 	}
@@ -572,7 +580,7 @@ func (b *broker) syncRemoveSession(subscriber *wamp.Session) {
 		delete(sub.subscribers, subscriber)
 
 		// If no more subscribers on this subscription.
-		if len(sub.subscribers) == 0 {
+		if len(sub.subscribers) == 0 && !b.hasEventHistory(sub) {
 			b.syncDelSubscription(sub)
 			// Fired when a subscription is deleted after the last session
 			// attached to it has been removed.
